@@ -20,6 +20,8 @@ type oblJob struct {
 	vars    []*Term
 	inputs  []*Term
 	tag     string
+	asserts []*Term
+	cuts    []*cutState
 	timeout time.Duration
 	// results
 	res    Result
